@@ -14,23 +14,33 @@ class OrderLaws(Harness):
     title = "strict-total-order laws of Order.__lt__/__gt__/__eq__/__le__/__ge__ on three accepted orders"
     what_symbolic = "prices (unbounded ints >= 0), acceptance times (unbounded >= 0), ids (unbounded, distinct)"
     nontrivial_event = "every path (each compares three orders pairwise)"
-    bounds = {"quick": "3 orders of one side, all 8 limit/market kind patterns, both sides; numeric values unbounded",
+    bounds = {"quick": "3 orders of one side, all 8 limit/market kind patterns, both sides (the side as a bool, and for two "
+                       "patterns as an int or a numpy.bool_); numeric values unbounded",
               "thorough": "same (the numeric space is already unbounded)"}
     reach = ("nontrivial", "tie-price", "tie-time")
     agreement_runs = 16
 
     def cases(self, tier):
-        return [{"is_buy": b, "kinds": "".join(k)} for b in (True, False)
-                for k in itertools.product("01", repeat=3)]
+        out = [{"is_buy": b, "kinds": "".join(k)} for b in (True, False)
+               for k in itertools.product("01", repeat=3)]
+        # the side given by a truthy / falsy value that is not the bool singleton (an int, a numpy.bool_)
+        out += [{"is_buy": b, "kinds": k, "flag": f} for b in (True, False) for k in ("000", "010") for f in ("int", "numpy")]
+        return out
 
     def run(self, g, case):
         os_, recs = [], []
+        side = case["is_buy"]
+        if case.get("flag") == "int":
+            side = int(side)
+        elif case.get("flag") == "numpy":
+            import numpy
+            side = numpy.bool_(side)
         for i in range(3):
             mk = case["kinds"][i] == "1"
             p = None if mk else g.int(f"p{i}", 0, None)
             t = g.int(f"t{i}", 0, None)
             oid = g.int(f"id{i}", 0, None)
-            o = Order(agent_id=0, market_id=0, is_buy=case["is_buy"], kind=MARKET_ORDER if mk else LIMIT_ORDER,
+            o = Order(agent_id=0, market_id=0, is_buy=side, kind=MARKET_ORDER if mk else LIMIT_ORDER,
                       volume=1, price=p, placed_at=t, order_id=oid)
             os_.append(o)
             recs.append({"is_buy": case["is_buy"], "is_market": mk, "price": p, "time": t, "id": oid})
